@@ -9,7 +9,7 @@ CONSTANTS
   MaxLife = 2
   MaxDims = 0
   MaxSteps = 0
-  MaxGen = 0
+  MaxGen = 1
   EmitActs = {"Create", "Delete", "Open", "AddLink", "RemoveLink"}
   EmitRes = "any"
   EmitWhen = "always"
